@@ -62,6 +62,21 @@ type Exec struct {
 	InlineDepth int
 	Safety      bool // generate implicit safety obligations (nil deref, bounds, type assert)
 
+	// PureFunc reports whether an external function/method is a pure,
+	// deterministic function of its arguments (results become uninterpreted
+	// functions of the arguments instead of fresh values).
+	PureFunc func(name string) bool
+	// NilReceiverPanics reports whether calling this external method on a nil
+	// pointer receiver panics (a safety obligation is generated).
+	NilReceiverPanics func(fn *ssa.Function) bool
+	// NonNilResult reports whether an external function never returns nil
+	// (assumed library postcondition).
+	NonNilResult func(name string) bool
+	// NoTypedNil reports whether interface values never hold a nil pointer of
+	// this type (library invariant of go/types, go/ast values).
+	NoTypedNil func(t types.Type) bool
+	// MapValuesNonNil reports whether present entries of maps of this type are never nil.
+	MapValuesNonNil func(t types.Type) bool
 	// FuncLabel overrides the function name used in obligation names.
 	FuncLabel func(fn *ssa.Function) string
 	// OnInstr is called before every instruction.
@@ -169,6 +184,9 @@ func (x *Exec) typeOfTerm(t *Term) *Term { return App("typeof", SInt, t) }
 func (x *Exec) dataOfTerm(t *Term) *Term { return App("dataof", SInt, t) }
 
 func (x *Exec) stringConst(s string) *Term {
+	if StringTheory {
+		return Atom(smtStringLit(s), SString)
+	}
 	if s == "" {
 		return IntLit(0)
 	}
@@ -611,6 +629,22 @@ func (x *Exec) step(s *State, f *Frame, instr ssa.Instruction) []*State {
 		return nil
 	case *ssa.Slice:
 		f.Regs[in] = x.sliceOp(s, f, in)
+		if f.Spec != nil {
+			bind := map[string]Value{}
+			if in.Low != nil {
+				bind["low"] = x.val(s, f, in.Low)
+			} else {
+				bind["low"] = S(IntLit(0))
+			}
+			if bsl, ok := x.val(s, f, in.X).(*SliceVal); ok {
+				bind["baselen"] = S(bsl.Len)
+				bind["high"] = S(bsl.Len)
+			}
+			if in.High != nil {
+				bind["high"] = x.val(s, f, in.High)
+			}
+			x.siteHooks(s, f, in, "slice", "", bind, nil)
+		}
 		f.Idx++
 		return nil
 	case *ssa.MakeInterface:
@@ -674,6 +708,7 @@ func (x *Exec) step(s *State, f *Frame, instr ssa.Instruction) []*State {
 		return nil
 	case *ssa.MapUpdate:
 		x.mapUpdate(s, f, in)
+		x.siteHooks(s, f, in, "mapupdate", "", map[string]Value{"key": x.val(s, f, in.Key), "val": x.val(s, f, in.Value), "m": x.val(s, f, in.Map)}, nil)
 		f.Idx++
 		return nil
 	case *ssa.Range:
@@ -848,7 +883,7 @@ func (x *Exec) safety(s *State, f *Frame, in ssa.Instruction, kind string, cond 
 	if cond.IsTrue() {
 		return
 	}
-	if x.Safety {
+	if x.Safety && !(s.Frames[0].Spec != nil && s.Frames[0].Spec.Options["nosafety"] != "") {
 		x.Sink.Assert(s, f, &Clause{Kind: "safety", Label: kind, Func: x.funcName(s.Frames[0].Fn)}, cond, in)
 	}
 	s.Assume(cond)
@@ -910,6 +945,14 @@ func (x *Exec) binop(s *State, op token.Token, a, b Value, operandType types.Typ
 	isFloat := false
 	if bt, ok := operandType.Underlying().(*types.Basic); ok && bt.Info()&(types.IsFloat|types.IsComplex) != 0 {
 		isFloat = true
+	}
+	if isString && StringTheory {
+		switch op {
+		case token.ADD:
+			return S(App("str.++", SString, ta, tb))
+		case token.LSS:
+			return S(App("str.<", SBool, ta, tb))
+		}
 	}
 	if isString || isFloat {
 		x.Ctx.DeclareFunc("opaque."+opName(op), []string{SInt, SInt}, resultSort(op))
@@ -1137,6 +1180,11 @@ func (x *Exec) typeAssert(s *State, f *Frame, in *ssa.TypeAssert) []*State {
 			res = S(Eq(d, IntLit(1)))
 		} else {
 			res = s.unreify(d, in.AssertedType)
+		}
+	}
+	if x.NoTypedNil != nil && x.NoTypedNil(in.AssertedType) {
+		if p, ok := res.(*PtrVal); ok && p.Cell == nil {
+			s.Assume(Implies(cond, Neq(p.Ref, IntLit(0))))
 		}
 	}
 	if in.CommaOk {
@@ -1377,6 +1425,12 @@ func (x *Exec) sites(fn *ssa.Function) *SiteMap {
 				if in.Op == token.ARROW {
 					items = append(items, item{in, "recv", "", in.Pos(), seq})
 				}
+			case *ssa.MapUpdate:
+				items = append(items, item{in, "mapupdate", "", in.Pos(), seq})
+			case *ssa.Slice:
+				if in.Pos().IsValid() {
+					items = append(items, item{in, "slice", "", in.Pos(), seq})
+				}
 			case *ssa.Return:
 				if b != fn.Recover {
 					items = append(items, item{in, "return", "", in.Pos(), seq})
@@ -1590,4 +1644,21 @@ func argBindings(args []Value) map[string]Value {
 		m[fmt.Sprintf("arg%d", i)] = a
 	}
 	return m
+}
+
+func smtStringLit(s string) string {
+	var sb strings.Builder
+	sb.WriteByte('"')
+	for _, r := range s {
+		switch {
+		case r == '"':
+			sb.WriteString("\"\"")
+		case r < 32 || r > 126:
+			sb.WriteString(fmt.Sprintf("\\u{%x}", r))
+		default:
+			sb.WriteRune(r)
+		}
+	}
+	sb.WriteByte('"')
+	return sb.String()
 }
